@@ -13,7 +13,7 @@ from vf.checks import c08
 PID = 'C20'
 
 INPUTS = ['okE', 'okH', 'okA', 'okHTML', 'okDef', 'failR', 'failC', 'failP', 'failX']
-PRIORS = [None, 'okOdd', 'failX']     # what the same interpreter was asked before (in-process entry points only)
+PRIORS = [None, 'okOdd', 'okX', 'failX']     # what the same interpreter was asked before (in-process entry points only)
 OUTARGS = ['none', 'rel', 'subdir', 'abs', 'dircomponent']
 STARTS = ['A', 'B/sub']
 
@@ -232,8 +232,8 @@ def run(tier, seed, budget=None):
         rule=('finite complete product: 9 inputs (5 succeeding incl. add-ons, one with a relative HTML output parameter, one relying on defaults; 4 failing '
               'while reading / calculating / printing / through a bare sys.exit()) x {python -m geophires_x as a real subprocess x 5 output arguments (none, '
               'relative, sub-directory, absolute, a name equal to a directory component); GeophiresXClient, direct main(), the client as embedded by the '
-              'Monte-Carlo work_package, each x {fresh interpreter, interpreter that already served a many-non-defaults request, interpreter that already '
-              'served an aborting request}} x 2 starting directories = 252 executions; reports compared across all entry points, file placement and '
+              'Monte-Carlo work_package, each x {fresh interpreter, interpreter that already served a many-non-defaults request, a request with output-unit directives, interpreter that already '
+              'served an aborting request}} x 2 starting directories = 306 executions; reports compared across all entry points, file placement and '
               'exit status on the CLI'),
         assumptions=['the direct main() entry point is given absolute paths (as the client does)',
                      'quick and thorough tiers are the same complete product'])
